@@ -706,6 +706,41 @@ impl<T: Payload> Ctx<T> {
                 RH::Sync(r) => r.is_terminated(),
                 RH::Async(r) => r.is_terminated(),
             })),
+            Op::ObsAll => {
+                let mut v: Vec<u64> = Vec::new();
+                macro_rules! common {
+                    ($h:expr) => {{
+                        v.push($h.len() as u64);
+                        v.push($h.is_empty() as u64);
+                        v.push($h.is_full() as u64);
+                        v.push($h.capacity() as u64);
+                        v.push($h.is_bounded() as u64);
+                        v.push($h.sender_count() as u64);
+                        v.push($h.receiver_count() as u64);
+                        v.push($h.is_closed() as u64);
+                        v.push($h.is_disconnected() as u64);
+                    }};
+                }
+                if let Some(h) = self.hs.last() {
+                    match &**h {
+                        SH::Sync(s) => common!(s),
+                        SH::Async(s) => common!(s),
+                    }
+                }
+                if let Some(h) = self.hr.last() {
+                    match &**h {
+                        RH::Sync(r) => {
+                            common!(r);
+                            v.push(r.is_terminated() as u64)
+                        }
+                        RH::Async(r) => {
+                            common!(r);
+                            v.push(r.is_terminated() as u64)
+                        }
+                    }
+                }
+                Out::r(Res::ObsVec(v))
+            }
             #[cfg(not(feature = "seam"))]
             Op::LockL => {
                 let g = self.flags.lock.lock();
